@@ -33,6 +33,9 @@ ERRATA_FIELDS = {
 }
 # wrong operand order letters: vpcompressb/w store the SOURCE in ModRM.reg (SDM: "A" encoding, ModRM:r/m (w), ModRM:reg (r))
 ERRATA_ENCODING = {"vpcompressb": "MR", "vpcompressw": "MR"}
+# r/m operand listed as memory only although the manuals give `xmm1/m64` (SDM vol. 2B MOVSD/MOVSS "F2 0F 11 /r MOVSD xmm1/m64, xmm2"): the
+# register-register store form is what `mod_mr()` selects (ExtMov) - (name, opcodeString) -> (operand index, register class)
+ERRATA_RM_REGISTER = {("movsd", "F2 0F 11 /r"): (0, "xmm"), ("movss", "F3 0F 11 /r"): (0, "xmm")}
 T1S_SUFFIX_ELEM = {"b": 1, "w": 2, "d": 4, "q": 8, "ps": 4, "pd": 8}
 IMM_TOKEN_BYTES = {"ib": 1, "iw": 2, "id": 4, "iq": 8, "/is4": 1, "if": 6}
 
@@ -300,6 +303,9 @@ def form_lines(db):
         if is_apx(f):
             skipped.append((f["name"], f["opcodeString"], "APX (not implemented by AsmJit)"))
             continue
+        fix = ERRATA_RM_REGISTER.get((f["name"], f["opcodeString"]))
+        if fix and not f["operands"][fix[0]]["reg"]:
+            f["operands"][fix[0]]["reg"] = fix[1]
         try:
             line, roles = translate(f)
         except TranslateError as e:
@@ -377,9 +383,9 @@ VEX_REG_CLASSES = {"rvm": (0x72, 0x75, 0x73, 0x76), "rm": (0x68, 0x6B, 0x83, 0x8
                    # X86Jcc / X86Jmp / X86Call to a bound label: rel8 and rel32 forms
                    "lrel": (0x26, 0x28, 0x1C),
                    # X86Arith `op r16/r32/r64, imm` (81 /d iw|id, 83 /d ib)
-                   "larithimm": (0x19,), "laccimm": (0x19, 0x3D), "lrotx": (0x37,), "lm": (0x0E, 0x38), "lmovri": (0x2C,), "lmovrmi": (0x2C,), "lmovmi": (0x2C,), "larithmi": (0x19,), "ltestmi": (0x3D,), "lmoff": (0x2C, 0x2D), "lmoffst": (0x2C, 0x2D), "lmovsr": (0x2C,), "lmovrs": (0x2C,)}
+                   "larithimm": (0x19,), "laccimm": (0x19, 0x3D), "lrotx": (0x37,), "lm": (0x0E, 0x38), "lmovri": (0x2C,), "lmovrmi": (0x2C,), "lmovmi": (0x2C,), "larithmi": (0x19,), "ltestmi": (0x3D,), "lmoff": (0x2C, 0x2D), "lmoffst": (0x2C, 0x2D), "lmovsr": (0x2C,), "lmovrs": (0x2C,), "xrvm": (0x85, 0x88)}
 SHAPE_ROLES = {"rvm": ["reg", "vvvv", "rm"], "rm": ["reg", "rm"], "rvmi": ["reg", "vvvv", "rm", "imm"], "rmi": ["reg", "rm", "imm"],
-               "lrm": ["reg", "rm"], "lmr": ["rm", "reg"], "lrmi": ["reg", "rm", "imm"], "lop": None, "larith": ["rm", "reg"], "lrot": ["rm", "imm"], "larithi8": ["rm", "imm"], "lopreg": ["opc"], "larithrm": ["reg", "rm"], "lmov": ["rm", "reg"], "lmovrm": ["reg", "rm"], "mr": ["rm", "reg"], "mri": ["rm", "reg", "imm"], "llea": ["reg", "rm"], "lrel": ["rel"], "larithimm": ["rm", "imm"], "laccimm": ["none", "imm"], "lrotx": ["rm", "none"], "lm": ["rm"], "lmovri": ["opc", "imm"], "lmovrmi": ["rm", "imm"], "lmovmi": ["rm", "imm"], "larithmi": ["rm", "imm"], "ltestmi": ["rm", "imm"], "lmoff": ["none", "moff"], "lmoffst": ["moff", "none"], "lmovsr": ["rm", "reg"], "lmovrs": ["reg", "rm"]}
+               "lrm": ["reg", "rm"], "lmr": ["rm", "reg"], "lrmi": ["reg", "rm", "imm"], "lop": None, "larith": ["rm", "reg"], "lrot": ["rm", "imm"], "larithi8": ["rm", "imm"], "lopreg": ["opc"], "larithrm": ["reg", "rm"], "lmov": ["rm", "reg"], "lmovrm": ["reg", "rm"], "mr": ["rm", "reg"], "mri": ["rm", "reg", "imm"], "llea": ["reg", "rm"], "lrel": ["rel"], "larithimm": ["rm", "imm"], "laccimm": ["none", "imm"], "lrotx": ["rm", "none"], "lm": ["rm"], "lmovri": ["opc", "imm"], "lmovrmi": ["rm", "imm"], "lmovmi": ["rm", "imm"], "larithmi": ["rm", "imm"], "ltestmi": ["rm", "imm"], "lmoff": ["none", "moff"], "lmoffst": ["moff", "none"], "lmovsr": ["rm", "reg"], "lmovrs": ["reg", "rm"], "xrvm": ["reg", "vvvv", "rm"]}
 
 
 COVER_NAMES = {}      # shape -> instruction names with an entry in that chunk (filled by class_rows_lean)
@@ -396,7 +402,7 @@ def class_rows_lean(kept, rows, chunk=96):
         for f, roles in kept:
             r = rows.get(f["name"])
             legacy = shape.startswith("l")
-            if not r or int(r[1]) not in encs or (f["prefix"] not in ("VEX", "EVEX") if not legacy else f["prefix"] != ""):
+            if not r or int(r[1]) not in encs or ((f["prefix"] not in ("VEX", "EVEX") if shape != "xrvm" else f["prefix"] != "XOP") if not legacy else f["prefix"] != ""):
                 continue
             if legacy and f["arch"] == "X86":
                 continue      # 32-bit-only form (the class theorems are stated for 64-bit mode)
@@ -422,6 +428,8 @@ def class_rows_lean(kept, rows, chunk=96):
             if shape in ("lmov", "lmovrm") and any(o["reg"] not in ("r8", "r16", "r32", "r64") for o in f["operands"]):
                 continue
             if legacy:
+                pass
+            elif shape == "xrvm":
                 pass
             elif (f["prefix"] == "EVEX" and not int(r[4], 16) & 0x800000) or (f["prefix"] == "VEX" and not int(r[4], 16) & 0x400000):
                 continue      # database form of an encoding space the instruction table does not implement (e.g. AVX10.2 EVEX vmpsadbw)
